@@ -90,6 +90,8 @@ pub struct Batch {
 #[derive(Clone, Debug, PartialEq, Serialize, Deserialize)]
 pub enum Step {
     Commit { batch: Batch, nonblocking: bool },
+    /// Commit a batch deleting every key present at that moment (all but `keep` of them).
+    DeleteAll { keep: usize },
     /// Build overlay `id` on top of overlay `parent` (None = on the committed state).
     OvBuild { id: usize, parent: Option<usize>, batch: Batch },
     OvCommit { id: usize, nonblocking: bool },
